@@ -100,6 +100,10 @@ def _literal(e: ast.expr, consts: Dict[str, Tuple[ast.expr, Optional[ast.ClassDe
     return None
 
 
+def _size(e: ast.AST) -> int:
+    return sum(1 for _ in ast.walk(e))
+
+
 def propagate_new_constants(tree: ast.Module, ref_consts: Set[str]) -> int:
     consts = consts_of(tree)
     new = {k: v for k, v in consts.items() if k not in ref_consts}
@@ -108,9 +112,31 @@ def propagate_new_constants(tree: ast.Module, ref_consts: Set[str]) -> int:
         v = _literal(val, consts, cls)
         if v is not None:
             lits[k] = v
+    # new constants holding a closed structure (table literal, compiled pattern): their uses are replaced by the structure itself
+    class _Val:
+        def __init__(self, e):
+            self.e = e
+    for k, (val, cls) in new.items():
+        if k in lits or _size(val) > 300:
+            continue
+        ok = isinstance(val, (ast.Dict, ast.List, ast.Tuple, ast.Set)) or (isinstance(val, ast.Call) and ast.unparse(val.func) in ("re.compile", "frozenset", "tuple"))
+        for x in ast.walk(val):
+            if isinstance(x, ast.Call) and ast.unparse(x.func) not in ("re.compile", "frozenset", "tuple", "struct.calcsize", "calcsize"):
+                ok = False
+            if isinstance(x, (ast.Lambda, ast.ListComp, ast.DictComp, ast.SetComp, ast.GeneratorExp, ast.Starred, ast.NamedExpr)):
+                ok = False
+            if isinstance(x, ast.Name) and cls is not None and f"{cls.name}.{x.id}" in consts:
+                ok = False  # a bare class-level name does not resolve inside a method body
+        if ok:
+            lits[k] = _Val(val)
     if not lits:
         return 0
     n = 0
+
+    def mk(v, node):
+        if isinstance(v, _Val):
+            return ast.copy_location(copy.deepcopy(v.e), node)
+        return ast.copy_location(ast.Constant(value=v), node)
     fn_locals = {x.id for f in ast.walk(tree) if isinstance(f, (ast.FunctionDef, ast.AsyncFunctionDef)) for x in ast.walk(f) if isinstance(x, ast.Name) and isinstance(x.ctx, ast.Store)}
 
     class T(ast.NodeTransformer):
@@ -131,20 +157,20 @@ def propagate_new_constants(tree: ast.Module, ref_consts: Set[str]) -> int:
                 key = f"{owner}.{node.attr}"
                 if key in lits:
                     n += 1
-                    return ast.copy_location(ast.Constant(value=lits[key]), node)
+                    return mk(lits[key], node)
                 # constant defined on a base class of the current class inside this module
                 if node.value.id in ("self", "cls") and self.cls:
                     for b in self.cls[-1].bases:
                         if isinstance(b, ast.Name) and f"{b.id}.{node.attr}" in lits:
                             n += 1
-                            return ast.copy_location(ast.Constant(value=lits[f"{b.id}.{node.attr}"]), node)
+                            return mk(lits[f"{b.id}.{node.attr}"], node)
             return node
 
         def visit_Name(self, node):
             nonlocal n
             if isinstance(node.ctx, ast.Load) and node.id in lits and node.id.upper() == node.id and node.id not in fn_locals:
                 n += 1
-                return ast.copy_location(ast.Constant(value=lits[node.id]), node)
+                return mk(lits[node.id], node)
             return node
     T().visit(tree)
     return n
